@@ -19,6 +19,7 @@
 //   perturbs <obj> <stepSize> <maxSteps> <maxEmpty> <snap> <kh> <h>*kh <ks> <state>*ks     (whole routines, scripted draws)
 //   reduce <maxSteps> <maxEmpty> <rangeRatio> <k> <raw>*k
 //   pshort <maxSteps> <maxEmpty> <rangeRatio> <snap> <k> <u>*k
+//   pshorto <obj> <maxSteps> <maxEmpty> <rangeRatio> <snap> <k> <u>*k           (partialShortcutPath under an objective, scripted draws)
 //   rnd <seed> <obj> (reduce ms me rr | pshort ms me rr snap | collapse ms me | rope delta tol | bspline steps minChange
 //                     | perturb step ms me snap | bettergoal evalK attempts rr snap | simplify evalK atLeastOnce | simplifymax)
 //   hybrid <obj> <gaps> <np> (<n> <state>*n)*np
@@ -268,6 +269,73 @@ public:
     }
 };
 
+// EXACTLY ADDITIVE objectives that are not path length (a geometrically shorter chord can be costlier):
+//  `lin`  = StateCostIntegralObjective over the LINEAR field c = 0.25 + x (the end-point trapezoid rule is exact for a linear field, so
+//           motionCost(a, s) + motionCost(s, b) = motionCost(a, b) for every interpolated s, up to rounding);
+//  `wreg` = length weighted by an expensive region: motionCost(a, b) = distance(a, b) * (1 + 4 * fraction of the motion whose (x, y) lies in the
+//           box [3.5, 6.5]^2), the fraction in closed form (Liang-Barsky clipping) — additive along a motion, up to rounding.
+class LinObjective : public ob::StateCostIntegralObjective
+{
+public:
+    LinObjective(const ob::SpaceInformationPtr &si) : ob::StateCostIntegralObjective(si, false)
+    {
+    }
+    ob::Cost stateCost(const ob::State *s) const override
+    {
+        std::vector<double> r;
+        si_->getStateSpace()->copyToReals(r, s);
+        return ob::Cost(0.25 + r[0]);
+    }
+};
+
+static double wregFraction(double ax, double ay, double bx, double by)
+{
+    double t0 = 0.0, t1 = 1.0;
+    const double a[2] = {ax, ay}, d[2] = {bx - ax, by - ay};
+    for (int k = 0; k < 2; ++k)
+    {
+        if (d[k] == 0.0)
+        {
+            if (a[k] < 3.5 || a[k] > 6.5)
+                return 0.0;
+        }
+        else
+        {
+            double u0 = (3.5 - a[k]) / d[k], u1 = (6.5 - a[k]) / d[k];
+            if (u0 > u1)
+                std::swap(u0, u1);
+            if (u0 > t0)
+                t0 = u0;
+            if (u1 < t1)
+                t1 = u1;
+            if (t0 > t1)
+                return 0.0;
+        }
+    }
+    return t1 - t0;
+}
+
+class RegionObjective : public ob::OptimizationObjective
+{
+public:
+    RegionObjective(const ob::SpaceInformationPtr &si) : ob::OptimizationObjective(si)
+    {
+        description_ = "region-weighted length";
+    }
+    ob::Cost stateCost(const ob::State *) const override
+    {
+        return identityCost();
+    }
+    ob::Cost motionCost(const ob::State *s1, const ob::State *s2) const override
+    {
+        std::vector<double> a, b;
+        si_->getStateSpace()->copyToReals(a, s1);
+        si_->getStateSpace()->copyToReals(b, s2);
+        const double f = wregFraction(a[0], a.size() > 1 ? a[1] : 5.0, b[0], b.size() > 1 ? b[1] : 5.0);
+        return ob::Cost(si_->distance(s1, s2) * (1.0 + 4.0 * f));
+    }
+};
+
 struct Ctx
 {
     ob::StateSpacePtr space;
@@ -295,6 +363,10 @@ static ob::OptimizationObjectivePtr makeObj(const Ctx &c, const std::string &o)
         return std::make_shared<TollObjective>(c.si, 2, false);
     if (o == "work")
         return std::make_shared<WorkObjective>(c.si);
+    if (o == "lin")
+        return std::make_shared<LinObjective>(c.si);
+    if (o == "wreg")
+        return std::make_shared<RegionObjective>(c.si);
     throw vp::ParseError("objective " + o);
 }
 
@@ -943,6 +1015,19 @@ int main()
                 for (unsigned long long j = 0; j < n; ++j)
                     vp::g_draws.us.push_back(argF(6 + j));
                 ret = ps.partialShortcutPath(p, argN(1), argN(2), argF(3), argF(4));
+            }
+            else if (!rnd && rt == "pshorto")
+            {
+                // pshorto <obj> <maxSteps> <maxEmpty> <rangeRatio> <snap> <k> <u>*k: partialShortcutPath under an objective, scripted draws
+                unsigned long long n = argN(6);
+                nargs(6 + n);
+                obj = makeObj(c, t.at(k + 1));
+                og::PathSimplifier ps2(c.si, goal, obj);
+                cost0 = p.cost(obj).value();
+                vp::g_draws.scripted = true;
+                for (unsigned long long j = 0; j < n; ++j)
+                    vp::g_draws.us.push_back(argF(7 + j));
+                ret = ps2.partialShortcutPath(p, argN(2), argN(3), argF(4), argF(5));
             }
             else if (rnd && rt == "reduce")
             {
